@@ -114,6 +114,9 @@ func (c CodecProto) ReadNext(b []byte, r io.Reader, limit int) ([]byte, int, err
 			n, err := r.Read(b[len(b):cap(b)])
 			b = b[:len(b)+n]
 			if err != nil && i >= len(b) {
+				if err == io.EOF && len(b) > 0 {
+					err = io.ErrUnexpectedEOF // ended inside the length prefix
+				}
 				return b, 0, err
 			}
 		}
@@ -211,6 +214,9 @@ func (c CodecJSON) ReadNext(b []byte, r io.Reader, limit int) ([]byte, int, erro
 			n, err := r.Read(b[len(b):cap(b)])
 			b = b[:len(b)+n]
 			if err != nil && i >= len(b) {
+				if err == io.EOF && braceCount > 0 {
+					err = io.ErrUnexpectedEOF // ended inside an object
+				}
 				return b, 0, err
 			}
 		}
